@@ -763,7 +763,7 @@ def execute(cls, stack, stdout, context):
     left_type, right_type = lambda_.args[0].args
     left.assert_type_equal(left_type)
     new_value = MichelineSequence.create_type(args=[PushInstruction.create_type(args=[left_type, left.to_literal()]), PairInstruction, lambda_.value])
-    res = LambdaType.create_type(args=[right_type, lambda_.args[1]])(new_value)
+    res = LambdaType.create_type(args=[right_type.get_anon_type(), lambda_.args[1]])(new_value)
     stack.push(res)
     return cls(stack_items_added=1)
 ''',
@@ -1201,7 +1201,7 @@ def execute(cls, stack, stdout, context):
     if 0 <= start < len(s) and stop <= len(s):
         res = OptionType.from_some(s[start:stop])
     else:
-        res = OptionType.none(type(s))
+        res = OptionType.none(s.get_anon_type())
     stack.push(res)
     return cls(stack_items_added=1)
 ''',
